@@ -308,6 +308,26 @@ func c08Faults() []fault {
 	add("batch-unknown-table-among-valid", func(r *rand.Rand, t string, p, a val.Item) []adapt.Op {
 		return one(adapt.Op{Kind: adapt.OpBatchWrite, Batch: []adapt.BatchEntry{{Table: t, Put: ixItem(a["h"].Str, a["r"].Str, "x", "1", 87)}, {Table: t, Del: k(p)}, {Table: "nosuchtable", Put: ixItem("b5", "1", "x", "1", 1)}}})
 	})
+	// 11b the same over TWO tables: the valid requests address one table, the failing request the other one -
+	// in both directions, because the order in which the tables of one call are visited is not the caller's
+	oth := "oth08"
+	add("batch-two-tables-bad-key-in-indexed-table", func(r *rand.Rand, t string, p, a val.Item) []adapt.Op {
+		bad := ixItem("b3", "1", "x", "1", 1)
+		delete(bad, "r")
+		return one(adapt.Op{Kind: adapt.OpBatchWrite, Batch: []adapt.BatchEntry{{Table: oth, Put: val.Item{"h": val.Str("o2"), "z": val.Num("2")}}, {Table: oth, Del: val.Item{"h": val.Str("o1")}}, {Table: t, Put: bad}}})
+	})
+	add("batch-two-tables-bad-key-in-other-table", func(r *rand.Rand, t string, p, a val.Item) []adapt.Op {
+		return one(adapt.Op{Kind: adapt.OpBatchWrite, Batch: []adapt.BatchEntry{{Table: t, Put: ixItem(a["h"].Str, a["r"].Str, "x", "1", 88)}, {Table: t, Del: k(p)}, {Table: oth, Put: val.Item{"nokey": val.Str("x")}}}})
+	})
+	add("batch-two-tables-bad-index-key", func(r *rand.Rand, t string, p, a val.Item) []adapt.Op {
+		return one(adapt.Op{Kind: adapt.OpBatchWrite, Batch: []adapt.BatchEntry{{Table: oth, Put: val.Item{"h": val.Str("o2"), "z": val.Num("2")}}, {Table: oth, Del: val.Item{"h": val.Str("o1")}}, {Table: t, Put: badIndexItem("b4", "1", 0)}}})
+	})
+	add("batch-two-tables-wrong-key-type-in-other-table", func(r *rand.Rand, t string, p, a val.Item) []adapt.Op {
+		return one(adapt.Op{Kind: adapt.OpBatchWrite, Batch: []adapt.BatchEntry{{Table: t, Put: ixItem(a["h"].Str, a["r"].Str, "x", "1", 89)}, {Table: t, Del: k(p)}, {Table: oth, Del: val.Item{"h": val.Num("1")}}}})
+	})
+	add("batch-three-tables-unknown-table-last", func(r *rand.Rand, t string, p, a val.Item) []adapt.Op {
+		return one(adapt.Op{Kind: adapt.OpBatchWrite, Batch: []adapt.BatchEntry{{Table: t, Put: ixItem(a["h"].Str, a["r"].Str, "x", "1", 90)}, {Table: oth, Put: val.Item{"h": val.Str("o3")}}, {Table: "zzz-nosuchtable", Put: val.Item{"h": val.Str("x")}}}})
+	})
 	// 12 UpdateTable whose later change fails
 	add("updatetable-second-change-fails", func(r *rand.Rand, t string, p, a val.Item) []adapt.Op {
 		return one(adapt.Op{Kind: adapt.OpUpdateTable, Table: t, Chg: []adapt.IndexChange{{Create: &adapt.IndexSpec{Name: "gsiNew", Hash: "v2"}}, {Delete: "nosuchindex"}}})
